@@ -218,12 +218,16 @@ CHECKS = {
              'empty line splits back into exactly those renderings (same number of paragraphs); line lists whose first line holds a word are stable; a license short name and text in decoded normal form '
              'render to a value that parses back to exactly them; rebuilding a paragraph from its own dictionary form reproduces '
              'that dictionary form whenever its field values are stable in the sense above (from_dict/to_dict theorem over '
-             'any number of fields); and the document theorem: the rendering of an object whose paragraphs are header/files/license '
+             'any number of fields); and the document theorem (C13_render_parse_render): the rendering of an object whose paragraphs are header/files/license '
              'and whose dictionary values are renderable (trimmed non-empty first line, indented non-blank continuation lines) '
              'and stable parses back - through the C06 grammar theorem - to an object with the same paragraph types and the '
-             'same dictionary forms. NOT proved: that every object built from a DEP-5 grammar document meets those '
-             'renderability conditions, and the composition into whole documents (render.parse.render = '
-             'render, equal dictionary forms after a render-parse cycle): decided by '
+             'same dictionary forms, and rendering that object gives the same text again (render.parse.render = render); a '
+             'paragraph with a value to render is never rendered as an empty one. The hypothesis of the document theorem is a '
+             'COMPUTABLE test (spec_goodb, proved sound), and C13_text_render_fixpoint states the whole property for every '
+             'text on which the test answers true; the extracted model evaluates the test on every generated DEP-5 document '
+             'on every run and the evidence records on how many it holds (all of them so far), so each generated document '
+             'is covered by the proof, not only by execution. NOT proved: that the test answers true on EVERY document of '
+             'the DEP-5 grammar (a universal statement about the grammar: per-class renderability of converted values); decided by '
              'co-execution of the complete model (rendering included) with copyright.py on generated DEP-5 documents and '
              'on their renderings (second cycle), and by the executable statement on every generated document.',
         note=TRUST,
